@@ -507,7 +507,7 @@ def proj_iter_c15(case, line):
 BIND_RULE = ("(statement, sample list, argument list) triples from the seeded typed statement generator over the type zoo "
              "(all expression forms, value/pointer/slice/slice-of-pointer arguments, zero patterns, deliberate mistakes, layout "
              "variation of the pass-through text, literals with quotes / comments / backslashes / % / the statement's own inputs, "
-             "slices of 63..4097 elements (thorough: up to 65537), 62..257 output columns); in a third of the cases the Statement "
+             "slices of 63..4097 elements (thorough: up to 16385), 62..1026 output columns); in a third of the cases the Statement "
              "has already been run on the same DB with arguments of another shape (other omitempty pattern with as many or other "
              "many columns, other lengths, one struct <-> a slice of it, empty) and the SQL is read from the driver statement "
              "that is executed; type shapes and argument values are dumped by the harness's own reflection walk; a case is "
